@@ -219,6 +219,7 @@ class Parser:
                 return ("struct", "::".join(path), fields)
             return ("id", "::".join(path))
         if v == "(":
+            if self.accept(")"): return ("unit",)
             saved = self.nostruct; self.nostruct = 0
             try:
                 e = self.expr()
@@ -257,6 +258,7 @@ class Gen:
         self.uses_fuel = False
         self.calls = {}                 # rust path / method name -> (gallina term, "pure" | "nres"): modelled callees
         self.identity_calls = set()     # wrappers that do not change the bytes (X::from_le_bytes, .as_le_bytes(), ...)
+        self.enums = {}                 # rust path of a unit variant -> gallina constructor
         self.structs = {}               # struct name -> field order of the tuple that stands for it
         self.draws = {}                 # type name -> gallina term of the number of bytes X::randomized() draws
         self.field_draws = {}           # "self.f" -> gallina term of the number of bytes f.randomize_data() draws
@@ -279,6 +281,10 @@ class Gen:
         if kind == "deref": return self.expr(e[1], k, want)
         if kind == "num":
             return k(str(e[1]), e[2] or want)
+        if kind == "unit":
+            return k("tt", "unit")
+        if kind == "id" and e[1] in self.enums:
+            return k(self.enums[e[1]], "enum")
         if kind == "id" and e[1] == "None":
             return k("None", ("opt", None))
         if kind == "fncall" and e[1] == "Some" and len(e[2]) == 1:
